@@ -77,8 +77,9 @@ Definition vol_trash (c : cfg) (v : vol) (h : string) (now : Z) : tres * vol :=
          else (TrOk, with_both v (del_block (v_blocks v) h) (add_trash (v_trash v) h (deadline c now) m))
        end.
 
-(* UnixVolume.Untrash: ioutil.ReadDir lists names in byte order; the first <hash>.trash.* wins and is
-   renamed over the block path (replacing a block file that may be there) *)
+(* UnixVolume.Untrash: ioutil.ReadDir lists names in byte order; at the first <hash>.trash.* : if the
+   block file exists (v.os.Stat succeeds) it is kept and the call succeeds (since /repo fa470fa, repair
+   of F20); otherwise the trashed copy is renamed to the block path *)
 Definition dec_dead (t : tr) : string := dec (Z.to_N (t_dead t)).
 Fixpoint first_trash (ts : list tr) (h : string) (best : option tr) : option tr :=
   match ts with
@@ -96,8 +97,12 @@ Definition vol_untrash (v : vol) (h : string) : ures * vol :=
   if v_ro v then (UErr, v)
   else match first_trash (v_trash v) h None with
        | None => (UNotExist, v)
-       | Some t => (UOk, with_both v (set_block (v_blocks v) h (t_mtime t))
+       | Some t =>
+         match find_block (v_blocks v) h with
+         | Some _ => (UOk, v)
+         | None => (UOk, with_both v (set_block (v_blocks v) h (t_mtime t))
                                    (filter (fun x => negb (same_trash h (t_dead t) x)) (v_trash v)))
+         end
        end.
 
 (* UnixVolume.EmptyTrash: removes <hash>.trash.<deadline> unless deadline > time.Now().Unix() *)
